@@ -415,6 +415,33 @@ def run(ctx):
                 tot = sum(arrs.values())
                 ok = ok and np.max(np.abs(tot[:, 1:])) <= 1e-12 * M0 and np.max(np.abs(tot[:, 0] - M0)) <= 1e-12 * M0
                 ctx.check("gen_mc / generate_phsp_p", bool(ok), lambda: {"card": cards.short(card), "N": N}, mechanism="ConfigLoader.generate_phsp_p")
+            if i % 3 == 1:
+                # the config-level generator with preferred nodes (get_phsp_p_generator(nodes=[...])): the events must be the declared
+                # decay whatever node list is asked for - every particle on ITS mass shell, momentum sum = parent at rest
+                from ..gen import cards
+
+                card = cards.CardGen(rng, "_c10ns%di%d" % (ctx.seed, i), nbody=4, n_chains=(1, 2), final_j2=(0,), res_j2_int=(0, 2)).make()
+                fnames = [f["name"] for f in card["meta"]["finals"]]
+                fm = dict(zip(fnames, [0.1, 0.2, 0.3, 0.45]))  # unequal masses make a wrong assignment visible
+                for k_, v_ in fm.items():
+                    card["config"]["particle"]["$finals"][k_]["mass"] = v_
+                topn = card["meta"]["top"]["name"]
+                card["config"]["particle"]["$top"][topn]["mass"] = 3.0
+                for r_ in card["meta"]["resonances"]:
+                    card["config"]["particle"][r_["name"]]["mass"] = 1.6
+                cfg = cards.load(card)
+                first = [str(x) for x in rng.choice(fnames, size=2, replace=False)]
+                rest_ = [x for x in fnames if x not in first]
+                node_lists = [[first], [first, first + [str(rng.choice(rest_))]], [[str(x) for x in rng.choice(fnames, size=3, replace=False)]]]
+                for nodes in node_lists:
+                    arrs = {str(k): np.asarray(v) for k, v in cfg.get_phsp_p_generator(nodes=nodes).generate(200).items()}
+                    ok = set(arrs) == set(fm) and all(a.shape == (200, 4) for a in arrs.values())
+                    dev_m = max(float(np.max(np.abs(kin.mass2(arrs[k]) - fm[k] ** 2))) for k in fm) if ok else np.inf
+                    tot = sum(arrs.values()) if ok else np.zeros((1, 4))
+                    ok = ok and dev_m <= 1e-10 * 9.0 and np.max(np.abs(tot[:, 1:])) <= 1e-10 * 3.0 and np.max(np.abs(tot[:, 0] - 3.0)) <= 1e-10 * 3.0
+                    ctx.check("gen_mc / generate_phsp_p", bool(ok), lambda: {"nodes": nodes, "masses": fm, "worst_m2_deviation": dev_m, "card": cards.short(card)},
+                              mechanism="get_phsp_p_generator(nodes: %d entr%s)" % (len(nodes), "y" if len(nodes) == 1 else "ies"))
+                    ctx.covered("preferred_nodes", len(nodes))
         except Exception as e:
             ctx.violation("gen_mc / generate_phsp_p", ctx.exc_witness(e, m0=m0, masses=ms, N=N), mechanism="gen_mc/generate_phsp_p raises")
         ctx.case(("api", n, N, i), nontrivial=N > 1)
